@@ -45,8 +45,26 @@ def uinfo(unit):
     import osyris
 
     if isinstance(unit, str):
+        own = M2.info_of_string(unit)  # what the string says, read without the library's parser
+        if own is not None:
+            return own
         unit = osyris.units(unit)
     return M2.unit_info(unit)
+
+
+def label_mismatch(unit, string):
+    """None when the library's unit object `unit` is what the unit string says (as read by M2's own parser), else a description.
+    Strings outside M2's grammar cannot be judged (None)."""
+    own = M2.info_of_string(string)
+    if own is None:
+        return None
+    try:
+        got = M2.unit_info(unit)
+    except M2.UnknownUnit as e:
+        return {"string": string, "unit": str(unit), "unknown": str(e)}
+    if tuple(got[1]) != tuple(own[1]) or abs(got[0] - own[0]) > (1e-12 + got[2] + own[2]) * abs(own[0]):
+        return {"string": string, "unit": str(unit), "scale_of_string": own[0], "scale_of_unit": got[0]}
+    return None
 
 
 def phys(arr):
